@@ -11,17 +11,21 @@ Import ListNotations.
 Open Scope Z_scope.
 
 Inductive case :=
-| CStream (size p : Z) (env : list bool) (writes : list Z) (requests : list Z) (typOk finished : bool)
+| CStream (size p : Z) (env : list bool) (writes : list Z) (requests : list Z) (typ : Z) (finished : bool)
 | CPar (size p threads : Z) (log : list (Z * Z * Z))   (* (0, offset, limit) request | (1, offset, len) WriteAt *)
-       (typOk finished : bool).
+       (typ : Z) (finished : bool).
+(* typ: the returned file type: 1 = the type the fake DC attaches to non-empty chunks, 2 = to empty
+   chunks, 0 = nil / anything else *)
 
 (* chunk lengths *)
 Definition clen (size p : Z) (i : nat) : Z := Z.max 0 (Z.min p (size - Z.of_nat i * p)).
 
-Definition check_stream (size p : Z) (env : list bool) (writes requests : list Z) (typOk finished : bool) : bool :=
-  match stream_loop (clen size p) (fun c => c =? 0) (fun c => c <? p) true (S (length env)) 0 env with
+Definition tagz (size p : Z) (i : nat) : Z := if clen size p i =? 0 then 2 else 1.
+
+Definition check_stream (size p : Z) (env : list bool) (writes requests : list Z) (typ : Z) (finished : bool) : bool :=
+  match stream_loop (clen size p) (fun c => c =? 0) (fun c => c <? p) (tagz size p) (S (length env)) 0 env with
   | SDone w t offs reqs =>
-      finished && zlist_eqb w writes && zlist_eqb (map (fun i => Z.of_nat i * p) reqs) requests && Bool.eqb t typOk
+      finished && zlist_eqb w writes && zlist_eqb (map (fun i => Z.of_nat i * p) reqs) requests && (t =? typ)
   | SEnv _ => negb finished
   end.
 
@@ -32,7 +36,7 @@ Variable threads : nat.
 Definition bempty (i : nat) : bool := clen size p i =? 0.
 Definition blast (i : nat) : bool := clen size p i <? p.
 (* the write loop dequeues before it calls WriteAt: one more block fits between the two *)
-Definition step := @p_step bool bempty blast true (S threads).
+Definition step := @p_step Z bempty blast (tagz size p) (S threads).
 
 Fixpoint find_w (f : wstate -> bool) (i : nat) (ws : list wstate) : option nat :=
   match ws with [] => None | w :: t => if f w then Some i else find_w f (S i) t end.
@@ -60,7 +64,7 @@ Fixpoint best_held (rest : list (Z * Z * Z)) (ws : list wstate) (w : nat) (best 
 
 (* make a worker idle: send the held block that is written first; its worker continues unless the
    block is the last one *)
-Definition free_one (rest : list (Z * Z * Z)) (s : pstate bool) : option (pstate bool) :=
+Definition free_one (rest : list (Z * Z * Z)) (s : pstate Z) : option (pstate Z) :=
   match best_held rest (p_workers s) 0 None with
   | Some (w, _) =>
       let s1 := step s (PSend w) in
@@ -71,7 +75,7 @@ Definition free_one (rest : list (Z * Z * Z)) (s : pstate bool) : option (pstate
   | None => None
   end.
 
-Fixpoint alloc_upto (fuel : nat) (i : nat) (rest : list (Z * Z * Z)) (s : pstate bool) : option (pstate bool) :=
+Fixpoint alloc_upto (fuel : nat) (i : nat) (rest : list (Z * Z * Z)) (s : pstate Z) : option (pstate Z) :=
   if Nat.ltb i (p_next s) then Some s else
   match fuel with
   | O => None
@@ -82,7 +86,7 @@ Fixpoint alloc_upto (fuel : nat) (i : nat) (rest : list (Z * Z * Z)) (s : pstate
       end
   end.
 
-Fixpoint replay (log : list (Z * Z * Z)) (s : pstate bool) : option (pstate bool) :=
+Fixpoint replay (log : list (Z * Z * Z)) (s : pstate Z) : option (pstate Z) :=
   match log with
   | [] => Some s
   | (k, off, len) :: rest =>
@@ -111,14 +115,14 @@ Fixpoint replay (log : list (Z * Z * Z)) (s : pstate bool) : option (pstate bool
         end
   end.
 
-Definition finish (s : pstate bool) : pstate bool :=
+Definition finish (s : pstate Z) : pstate Z :=
   let ws := seq 0 threads in
   let s1 := fold_left (fun s w => step s (PSend w)) ws s in     (* empty blocks stop *)
   let s2 := fold_left (fun s w => step s (PAfter w)) ws s1 in   (* last blocks stop *)
   fold_left (fun s w => step s (PCheck w)) ws s2.               (* everybody else sees ready *)
 
-Definition check_par (log : list (Z * Z * Z)) (typOk finished : bool) : bool :=
-  match replay log (p_init bool threads) with
+Definition check_par (log : list (Z * Z * Z)) (typ : Z) (finished : bool) : bool :=
+  match replay log (p_init Z threads) with
   | None => false
   | Some s =>
       let sf := finish s in
@@ -130,14 +134,18 @@ Definition check_par (log : list (Z * Z * Z)) (typOk finished : bool) : bool :=
         p_terminal sf &&
         list_eqb Z.eqb (map (fun i => Z.of_nat i * p) (p_written sf))
                  (map (fun e => snd (fst e)) (filter (fun e => fst (fst e) =? 1) log)) &&
-        Bool.eqb typOk (match p_typ sf with Some true => true | _ => false end)
+        (* which of the stopping chunks calls stop first is up to the scheduler: the observed type must be
+           the type of SOME requested block that is short or empty, and the model's run must have one *)
+        (match p_typ sf with Some _ => true | None => false end) &&
+        existsb (fun e => (fst (fst e) =? 0) &&
+                          (let i := Z.to_nat (snd (fst e) / p) in blast i && (tagz size p i =? typ))) log
       else true
   end.
 End Replay.
 
 Definition ok (c : case) : bool :=
   match c with
-  | CStream size p env writes requests typOk finished => check_stream size p env writes requests typOk finished
-  | CPar size p threads log typOk finished => check_par size p (Z.to_nat threads) log typOk finished
+  | CStream size p env writes requests typ finished => check_stream size p env writes requests typ finished
+  | CPar size p threads log typ finished => check_par size p (Z.to_nat threads) log typ finished
   end.
 Definition mismatches (cs : list case) : list nat := mismatch_idx ok cs.
